@@ -48,6 +48,7 @@ var mutations = map[string]mutation{
 	}},
 	"c12-signer-unchecked": one("C12", "kmipclient/sign_verify.go", "\t\tpubKey, ok := c.publicKey.(*ecdsa.PublicKey)\n\t\tif !ok {", "\t\tpubKey, ok := c.publicKey.(*ecdsa.PublicKey), true\n\t\tif !ok {"),
 	"c08-http-type-panic":  one("C08", "ttlv/encoding_json.go", "\t// Unknown type name: report the invalid type 0, which no reading method\n\t// accepts, so that the caller gets an encoding error instead of a panic.\n\treturn Type(0)", "\tpanic(\"Invalid type\")"),
+	"c08-json-goquote":     one("C08", "ttlv/encoding_json.go", "\t\treturn appendJSONString(b, str)", "\t\treturn strconv.AppendQuote(b, str)"),
 	// C13
 	"c13-fallback":            one("C13", "kmipclient/client.go", "if !slices.Contains(c.supportedVersions, kmip.V1_0) {", "if false {"),
 	"c13-first-listed":        one("C13", "kmipclient/client.go", "if best == nil || ttlv.CompareVersions(v, *best) > 0 {", "if best == nil {"),
